@@ -27,13 +27,42 @@ def handle (op : String) (j : Json) : Except String Json := do
   match op with
   | "index" =>
     let idx := createIndex file
-    let m := Json.mkObj [("rows", Json.arr (idx.map rowJ).toArray), ("lengths", lensJ (contigLengths idx))]
+    -- the written .fai, and what read_index makes of it (get_contig_lengths reads the re-read index)
+    let back := (readIndex (faiText idx)).getD []
+    let m := Json.mkObj [("rows", Json.arr (back.map rowJ).toArray), ("lengths", lensJ (contigLengths back)),
+                         ("fai", Json.str (ofB (faiText idx)))]
     let s := Json.mkObj [("rows", Json.arr (spec.map rowJ).toArray),
-                         ("lengths", lensJ (recs.map (fun r => (firstWord r.header, r.seq.length))))]
+                         ("lengths", lensJ (recs.map (fun r => (firstWord r.header, r.seq.length)))),
+                         ("fai", Json.str (ofB (faiText spec)))]
+    pure (reply m (some s))
+  | "index_chunked" =>
+    let sizes ← getNatList j "sizes"
+    let chunks := (sizes.foldl (fun (acc : List Bytes × Bytes) n => (acc.1 ++ [acc.2.take n], acc.2.drop n)) ([], file)).1
+    let idx := createIndexChunked chunks
+    let m := Json.mkObj [("rows", Json.arr (idx.map rowJ).toArray)]
+    let s := Json.mkObj [("rows", Json.arr (spec.map rowJ).toArray)]
+    pure (reply m (some s))
+  | "genome" =>
+    let idx := createIndex file
+    let text := faiText idx
+    let sizes := (genomeSizes text).getD []
+    let back := (readIndex text).getD []
+    let seqs := back.map (fun r => Json.arr #[Json.str (ofB r.name), Json.str (ofB (fetchContig file r))])
+    let last := back.getLast?
+    let sub := match last with
+      | some r => [Json.str (ofB (fetchInterval file r 0 r.rlen)), Json.str (ofB (fetchInterval file r (r.rlen / 2) r.rlen))]
+      | none => []
+    let m := Json.mkObj [("sizes", lensJ sizes), ("seqs", Json.arr seqs.toArray), ("sub", Json.arr sub.toArray)]
+    let sSub := match recs.getLast? with
+      | some r => [Json.str (ofB r.seq), Json.str (ofB (r.seq.drop (r.seq.length / 2)))]
+      | none => []
+    let s := Json.mkObj [("sizes", lensJ (recs.map (fun r => (firstWord r.header, r.seq.length)))),
+                         ("seqs", Json.arr (recs.map (fun r => Json.arr #[Json.str (ofB (firstWord r.header)), Json.str (ofB r.seq)])).toArray),
+                         ("sub", Json.arr sSub.toArray)]
     pure (reply m (some s))
   | "fetch" =>
     let supplied ← getBool j "supplied"
-    let idx := if supplied then spec else createIndex file
+    let idx := (readIndex (faiText (if supplied then spec else createIndex file))).getD []
     let ivs ← getArr j "ivs"
     let qs ← ivs.mapM (fun iv => do
       let n ← getStr iv "name"
@@ -49,7 +78,7 @@ def handle (op : String) (j : Json) : Except String Json := do
     pure (reply (Json.arr m.toArray) (some (Json.arr s.toArray)))
   | "contig" =>
     let supplied ← getBool j "supplied"
-    let idx := if supplied then spec else createIndex file
+    let idx := (readIndex (faiText (if supplied then spec else createIndex file))).getD []
     let m := idx.map (fun r => Json.arr #[Json.str (ofB (firstWord r.name)), Json.str (ofB (fetchContig file r))])
     let s := recs.map (fun r => Json.arr #[Json.str (ofB (firstWord r.header)), Json.str (ofB r.seq)])
     pure (reply (Json.arr m.toArray) (some (Json.arr s.toArray)))
